@@ -5,180 +5,180 @@ namespace LlgoVerif.Gen.C19
 open LlgoVerif.PyGuard
 
 def progs : List GenProg := [
-  -- program c19s0p26359
+  -- program c19s0p20080
   { main := 28,
     entry := [.pyInitialize, .rtInit, .runtimeInit, .mainInit, .mainMain],
     calls := [(25, .call (2, 1)), (25, .var (2, 2)), (25, .var (2, 3)), (25, .var (2, 4)), (25, .var (2, 5)), (25, .call (2, 0)), (25, .call (3, 1)), (25, .var (3, 2)), (25, .var (3, 3)), (25, .var (3, 4)), (25, .var (3, 5)), (25, .call (3, 0)), (25, .explicitImport 0), (25, .explicitImport 1), (26, .call (1, 1)), (26, .var (1, 2)), (26, .var (1, 3)), (26, .var (1, 4)), (26, .var (1, 5)), (26, .call (1, 0)), (26, .call (3, 1)), (26, .var (3, 2)), (26, .var (3, 3)), (26, .var (3, 4)), (26, .var (3, 5)), (26, .call (3, 0)), (26, .explicitImport 0), (26, .explicitImport 1), (27, .call (3, 1)), (27, .var (3, 2)), (27, .var (3, 3)), (27, .var (3, 4)), (27, .var (3, 5)), (27, .call (3, 0)), (27, .explicitImport 0), (27, .explicitImport 1), (28, .call (0, 1)), (28, .var (0, 2)), (28, .var (0, 3)), (28, .var (0, 4)), (28, .var (0, 5)), (28, .call (0, 0)), (28, .call (1, 1)), (28, .var (1, 2)), (28, .var (1, 3)), (28, .var (1, 4)), (28, .var (1, 5)), (28, .call (1, 0)), (28, .call (2, 1)), (28, .var (2, 2)), (28, .var (2, 3)), (28, .var (2, 4)), (28, .var (2, 5)), (28, .call (2, 0)), (28, .call (3, 1)), (28, .var (3, 2)), (28, .var (3, 3)), (28, .var (3, 4)), (28, .var (3, 5)), (28, .call (3, 0)), (28, .call (3, 1)), (28, .var (3, 2)), (28, .var (3, 3)), (28, .var (3, 4)), (28, .var (3, 5)), (28, .call (3, 0)), (28, .explicitImport 0), (28, .explicitImport 1)],
     facts := [
-      -- c19s0p26359/vio
+      -- c19s0p20080/vio
       { id := 0,
         toks := [.guardTest, .guardStore, .ret],
         inits := [], loadGroups := [],
         initUses := [],
         imp := none, fnUses := [], intrinsics := false },
-      -- c19s0p26359/bh
+      -- c19s0p20080/bh
       { id := 1,
         toks := [.guardTest, .guardStore, .guardedImport 4, .ret],
         inits := [], loadGroups := [],
         initUses := [],
         imp := some 4, fnUses := [], intrinsics := false },
-      -- c19s0p26359/bops
+      -- c19s0p20080/bops
       { id := 2,
         toks := [.guardTest, .guardStore, .guardedImport 5, .ret],
         inits := [], loadGroups := [],
         initUses := [],
         imp := some 5, fnUses := [], intrinsics := false },
-      -- c19s0p26359/bblt
+      -- c19s0p20080/bblt
       { id := 3,
         toks := [.guardTest, .guardStore, .guardedImport 6, .ret],
         inits := [], loadGroups := [],
         initUses := [],
         imp := some 6, fnUses := [], intrinsics := false },
-      -- c19s0p26359/bmath
+      -- c19s0p20080/bmath
       { id := 4,
         toks := [.guardTest, .guardStore, .guardedImport 7, .ret],
         inits := [], loadGroups := [],
         initUses := [],
         imp := some 7, fnUses := [], intrinsics := false },
-      -- c19s0p26359/bsig
+      -- c19s0p20080/bsig
       { id := 5,
         toks := [.guardTest, .guardStore, .guardedImport 4, .ret],
         inits := [], loadGroups := [],
         initUses := [],
         imp := some 4, fnUses := [], intrinsics := false },
-      -- c19s0p26359/bsig2
+      -- c19s0p20080/bsig2
       { id := 6,
         toks := [.guardTest, .guardStore, .guardedImport 4, .ret],
         inits := [], loadGroups := [],
         initUses := [],
         imp := some 4, fnUses := [], intrinsics := false },
-      -- c19s0p26359/b0
+      -- c19s0p20080/b0
       { id := 7,
         toks := [.guardTest, .guardStore, .guardedImport 0, .ret],
         inits := [], loadGroups := [],
         initUses := [],
         imp := some 0, fnUses := [], intrinsics := false },
-      -- c19s0p26359/b1
+      -- c19s0p20080/b1
       { id := 8,
         toks := [.guardTest, .guardStore, .guardedImport 1, .ret],
         inits := [], loadGroups := [],
         initUses := [],
         imp := some 1, fnUses := [], intrinsics := false },
-      -- c19s0p26359/b2
+      -- c19s0p20080/b2
       { id := 9,
         toks := [.guardTest, .guardStore, .guardedImport 2, .ret],
         inits := [], loadGroups := [],
         initUses := [],
         imp := some 2, fnUses := [], intrinsics := false },
-      -- c19s0p26359/b3
+      -- c19s0p20080/b3
       { id := 10,
         toks := [.guardTest, .guardStore, .guardedImport 3, .ret],
         inits := [], loadGroups := [],
         initUses := [],
         imp := some 3, fnUses := [], intrinsics := false },
-      -- c19s0p26359/b3x
+      -- c19s0p20080/b3x
       { id := 11,
         toks := [.guardTest, .guardStore, .guardedImport 3, .ret],
         inits := [], loadGroups := [],
         initUses := [],
         imp := some 3, fnUses := [], intrinsics := false },
-      -- c19s0p26359/bq0
+      -- c19s0p20080/bq0
       { id := 12,
         toks := [.guardTest, .guardStore, .guardedImport 8, .ret],
         inits := [], loadGroups := [],
         initUses := [],
         imp := some 8, fnUses := [], intrinsics := false },
-      -- c19s0p26359/bq1
+      -- c19s0p20080/bq1
       { id := 13,
         toks := [.guardTest, .guardStore, .guardedImport 9, .ret],
         inits := [], loadGroups := [],
         initUses := [],
         imp := some 9, fnUses := [], intrinsics := false },
-      -- c19s0p26359/bq2
+      -- c19s0p20080/bq2
       { id := 14,
         toks := [.guardTest, .guardStore, .guardedImport 10, .ret],
         inits := [], loadGroups := [],
         initUses := [],
         imp := some 10, fnUses := [], intrinsics := false },
-      -- c19s0p26359/bq3
+      -- c19s0p20080/bq3
       { id := 15,
         toks := [.guardTest, .guardStore, .guardedImport 11, .ret],
         inits := [], loadGroups := [],
         initUses := [],
         imp := some 11, fnUses := [], intrinsics := false },
-      -- c19s0p26359/bq4
+      -- c19s0p20080/bq4
       { id := 16,
         toks := [.guardTest, .guardStore, .guardedImport 12, .ret],
         inits := [], loadGroups := [],
         initUses := [],
         imp := some 12, fnUses := [], intrinsics := false },
-      -- c19s0p26359/bq5
+      -- c19s0p20080/bq5
       { id := 17,
         toks := [.guardTest, .guardStore, .guardedImport 13, .ret],
         inits := [], loadGroups := [],
         initUses := [],
         imp := some 13, fnUses := [], intrinsics := false },
-      -- c19s0p26359/bq6
+      -- c19s0p20080/bq6
       { id := 18,
         toks := [.guardTest, .guardStore, .guardedImport 14, .ret],
         inits := [], loadGroups := [],
         initUses := [],
         imp := some 14, fnUses := [], intrinsics := false },
-      -- c19s0p26359/vdump
+      -- c19s0p20080/vdump
       { id := 19,
         toks := [.guardTest, .guardStore, .callInit 0, .ret],
         inits := [0], loadGroups := [],
         initUses := [],
         imp := none, fnUses := [], intrinsics := false },
-      -- c19s0p26359/vsig
+      -- c19s0p20080/vsig
       { id := 20,
         toks := [.guardTest, .guardStore, .callInit 5, .callInit 6, .loadSyms 4 [0, 1, 2, 3, 4, 5, 6, 7, 8, 9, 10, 11, 12, 13, 14, 15, 16, 17, 18, 19, 20, 21, 22, 23, 24, 25, 26, 27, 28, 29, 30, 31, 32, 33, 34, 35, 36, 37, 38, 39, 40, 41, 42, 43, 44, 45, 46, 47, 48, 49, 50, 51, 52, 53, 54, 55, 56, 57, 58, 59, 60, 61, 62, 63, 64, 65, 66, 67, 68, 69], .ret],
         inits := [5, 6], loadGroups := [(4, [0, 1, 2, 3, 4, 5, 6, 7, 8, 9, 10, 11, 12, 13, 14, 15, 16, 17, 18, 19, 20, 21, 22, 23, 24, 25, 26, 27, 28, 29, 30, 31, 32, 33, 34, 35, 36, 37, 38, 39, 40, 41, 42, 43, 44, 45, 46, 47, 48, 49, 50, 51, 52, 53, 54, 55, 56, 57, 58, 59, 60, 61, 62, 63, 64, 65, 66, 67, 68, 69])],
         initUses := [],
         imp := none, fnUses := [.call (4, 0), .call (4, 1), .call (4, 12), .call (4, 23), .call (4, 34), .call (4, 45), .call (4, 56), .call (4, 67), .call (4, 68), .call (4, 69), .call (4, 2), .call (4, 3), .call (4, 4), .call (4, 5), .call (4, 6), .call (4, 7), .call (4, 8), .call (4, 9), .call (4, 10), .call (4, 11), .call (4, 13), .call (4, 14), .call (4, 15), .call (4, 16), .call (4, 17), .call (4, 18), .call (4, 19), .call (4, 20), .call (4, 21), .call (4, 22), .call (4, 24), .call (4, 25), .call (4, 26), .call (4, 27), .call (4, 28), .call (4, 29), .call (4, 30), .call (4, 31), .call (4, 32), .call (4, 33), .call (4, 35), .call (4, 36), .call (4, 37), .call (4, 38), .call (4, 39), .call (4, 40), .call (4, 41), .call (4, 42), .call (4, 43), .call (4, 44), .call (4, 46), .call (4, 47), .call (4, 48), .call (4, 49), .call (4, 50), .call (4, 51), .call (4, 52), .call (4, 53), .call (4, 54), .call (4, 55), .call (4, 57), .call (4, 58), .call (4, 59), .call (4, 60), .call (4, 61), .call (4, 62), .call (4, 63), .call (4, 64), .call (4, 65), .call (4, 66)], intrinsics := false },
-      -- c19s0p26359/vsa
+      -- c19s0p20080/vsa
       { id := 21,
         toks := [.guardTest, .guardStore, .callInit 5, .loadSyms 4 [70, 71, 72, 73, 74, 75, 76, 77], .ret],
         inits := [5], loadGroups := [(4, [70, 71, 72, 73, 74, 75, 76, 77])],
         initUses := [],
         imp := none, fnUses := [.call (4, 70), .call (4, 71), .call (4, 72), .call (4, 73), .call (4, 74), .call (4, 75), .call (4, 76), .call (4, 77)], intrinsics := false },
-      -- c19s0p26359/vsb
+      -- c19s0p20080/vsb
       { id := 22,
         toks := [.guardTest, .guardStore, .callInit 5, .loadSyms 4 [70, 71, 72, 73, 74, 75, 76, 77], .ret],
         inits := [5], loadGroups := [(4, [70, 71, 72, 73, 74, 75, 76, 77])],
         initUses := [],
         imp := none, fnUses := [.call (4, 70), .call (4, 71), .call (4, 72), .call (4, 73), .call (4, 74), .call (4, 75), .call (4, 76), .call (4, 77)], intrinsics := false },
-      -- c19s0p26359/vh0
+      -- c19s0p20080/vh0
       { id := 23,
         toks := [.guardTest, .guardStore, .callInit 12, .callInit 13, .callInit 14, .callInit 15, .callInit 16, .callInit 17, .callInit 18, .loadSyms 8 [0, 1, 2, 3], .loadSyms 9 [0, 1, 2], .loadSyms 10 [0, 1], .loadSyms 9 [0, 1, 2], .loadSyms 8 [0, 1, 2, 3], .loadSyms 12 [0, 1, 2], .loadSyms 13 [0], .loadSyms 12 [0, 1, 2], .loadSyms 11 [0], .loadSyms 14 [0, 1, 2], .ret],
         inits := [12, 13, 14, 15, 16, 17, 18], loadGroups := [(8, [0, 1, 2, 3]), (9, [0, 1, 2]), (10, [0, 1]), (9, [0, 1, 2]), (8, [0, 1, 2, 3]), (12, [0, 1, 2]), (13, [0]), (12, [0, 1, 2]), (11, [0]), (14, [0, 1, 2])],
         initUses := [],
         imp := none, fnUses := [.call (8, 0), .call (9, 0), .call (8, 3), .call (14, 2), .call (10, 1), .call (13, 0), .call (10, 0), .call (12, 2), .call (14, 1), .call (12, 1), .call (12, 0), .call (9, 2), .call (14, 0), .call (11, 0), .call (8, 1), .call (8, 2), .call (9, 1)], intrinsics := false },
-      -- c19s0p26359/vh1
+      -- c19s0p20080/vh1
       { id := 24,
         toks := [.guardTest, .guardStore, .callInit 12, .callInit 13, .callInit 14, .callInit 15, .callInit 17, .callInit 18, .loadSyms 10 [0], .loadSyms 9 [3, 1], .loadSyms 8 [3], .loadSyms 13 [1, 2], .loadSyms 11 [1], .loadSyms 14 [3], .ret],
         inits := [12, 13, 14, 15, 17, 18], loadGroups := [(10, [0]), (9, [3, 1]), (8, [3]), (13, [1, 2]), (11, [1]), (14, [3])],
         initUses := [],
         imp := none, fnUses := [.call (13, 1), .call (8, 3), .call (9, 1), .call (14, 3), .call (11, 1), .call (13, 2), .call (10, 0), .call (9, 3)], intrinsics := false },
-      -- c19s0p26359/u1
+      -- c19s0p20080/u1
       { id := 25,
         toks := [.guardTest, .guardStore, .callInit 9, .callInit 10, .callInit 1, .callInit 19, .loadSyms 4 [78, 79], .loadSyms 2 [0, 1], .loadSyms 3 [0, 1], .use (.call (2, 1)), .use (.call (3, 1)), .use (.explicitImport 1), .use (.call (4, 79)), .ret],
         inits := [9, 10, 1, 19], loadGroups := [(4, [78, 79]), (2, [0, 1]), (3, [0, 1])],
         initUses := [.call (2, 1), .call (3, 1), .explicitImport 1, .call (4, 79)],
         imp := none, fnUses := [.call (2, 1), .var (2, 2), .call (4, 78), .var (2, 3), .var (2, 4), .var (2, 5), .call (2, 0), .call (3, 1), .var (3, 2), .var (3, 3), .var (3, 4), .var (3, 5), .call (3, 0), .explicitImport 0, .call (4, 79), .explicitImport 1], intrinsics := false },
-      -- c19s0p26359/u2
+      -- c19s0p20080/u2
       { id := 26,
         toks := [.guardTest, .guardStore, .callInit 8, .callInit 11, .callInit 1, .callInit 19, .loadSyms 4 [78, 79], .loadSyms 1 [0, 1], .loadSyms 3 [0, 1], .use (.call (1, 1)), .use (.call (3, 1)), .ret],
         inits := [8, 11, 1, 19], loadGroups := [(4, [78, 79]), (1, [0, 1]), (3, [0, 1])],
         initUses := [.call (1, 1), .call (3, 1)],
         imp := none, fnUses := [.call (1, 1), .var (1, 2), .call (4, 78), .var (1, 3), .var (1, 4), .var (1, 5), .call (1, 0), .call (3, 1), .var (3, 2), .var (3, 3), .var (3, 4), .var (3, 5), .call (3, 0), .explicitImport 0, .call (4, 79), .explicitImport 1], intrinsics := false },
-      -- c19s0p26359/u3
+      -- c19s0p20080/u3
       { id := 27,
         toks := [.guardTest, .guardStore, .callInit 10, .callInit 1, .callInit 19, .loadSyms 4 [78, 79], .loadSyms 3 [0, 1], .use (.call (3, 1)), .ret],
         inits := [10, 1, 19], loadGroups := [(4, [78, 79]), (3, [0, 1])],
         initUses := [.call (3, 1)],
         imp := none, fnUses := [.call (3, 1), .var (3, 2), .call (4, 78), .var (3, 3), .var (3, 4), .var (3, 5), .call (3, 0), .explicitImport 0, .call (4, 79), .explicitImport 1], intrinsics := false },
-      -- c19s0p26359
+      -- c19s0p20080
       { id := 28,
         toks := [.guardTest, .guardStore, .callInit 1, .callInit 19, .callInit 0, .callInit 3, .callInit 4, .callInit 2, .callInit 25, .callInit 26, .callInit 27, .callInit 23, .callInit 24, .callInit 21, .callInit 22, .callInit 20, .callInit 7, .callInit 8, .callInit 9, .callInit 10, .callInit 11, .loadSyms 6 [0, 1, 2, 3, 4, 5, 6, 7, 8], .loadSyms 7 [0, 1, 2, 3, 4, 5, 6, 7], .loadSyms 5 [0, 1, 2, 3, 4, 5, 6, 7, 8], .loadSyms 4 [80, 81, 82, 83, 84, 85, 86, 87, 88, 89, 90, 78, 79, 91], .loadSyms 0 [0, 1], .loadSyms 1 [0, 1], .loadSyms 2 [0, 1], .loadSyms 3 [0, 1], .use (.call (0, 1)), .ret],
         inits := [1, 19, 0, 3, 4, 2, 25, 26, 27, 23, 24, 21, 22, 20, 7, 8, 9, 10, 11], loadGroups := [(6, [0, 1, 2, 3, 4, 5, 6, 7, 8]), (7, [0, 1, 2, 3, 4, 5, 6, 7]), (5, [0, 1, 2, 3, 4, 5, 6, 7, 8]), (4, [80, 81, 82, 83, 84, 85, 86, 87, 88, 89, 90, 78, 79, 91]), (0, [0, 1]), (1, [0, 1]), (2, [0, 1]), (3, [0, 1])],
